@@ -25,6 +25,20 @@ SPECIAL_STRINGS = [
     "naïve café",
     "߿ࠀ￿\U00010000",
     "x" * 33,
+    # characters that text layers like to "help" with: byte order mark (first,
+    # alone, inside), line ends, other whitespace at the ends, control characters
+    "\ufeff",
+    "\ufeffabc",
+    "a\ufeffb",
+    "\ufffe",
+    "\r\n",
+    "a\r\nb\n",
+    " lead",
+    "trail \t",
+    "\x1a\x7f\x85\u2028",
+    "e\u0301",  # combining sequence: must not be normalised to the precomposed form
+    "\u00e9" + "e\u0301",
+    "\ud7ff\ue000",  # the neighbours of the surrogate range
 ]
 
 SPECIAL_DOUBLES = [
